@@ -37,7 +37,8 @@ class ClassModel:
         self.kinds: Dict[str, str] = {}
         self.fields: List[Tuple[str, Optional[ast.expr]]] = []     # dataclass fields in order
         self.consts: List[Tuple[str, ast.expr]] = []               # class-level constants
-        if node.bases or node.keywords or (set(_decos(node)) - {'dataclass'}):
+        self.is_namedtuple = len(node.bases) == 1 and ast.unparse(node.bases[0]) in ('NamedTuple', 'typing.NamedTuple')
+        if (node.bases and not self.is_namedtuple) or node.keywords or (set(_decos(node)) - {'dataclass'}):
             self.ok = False
         for st in node.body:
             if isinstance(st, ast.Expr) and isinstance(st.value, ast.Constant):
@@ -53,7 +54,7 @@ class ClassModel:
                 self.methods[st.name] = st
                 self.kinds[st.name] = 'static' if 'staticmethod' in d else 'class' if 'classmethod' in d else 'prop' if 'property' in d else 'inst'
             elif isinstance(st, ast.AnnAssign) and isinstance(st.target, ast.Name):
-                if self.is_dataclass:
+                if self.is_dataclass or self.is_namedtuple:
                     dflt = st.value
                     if isinstance(dflt, ast.Call) and ast.unparse(dflt.func).endswith('field'):
                         kw = {k.arg: k.value for k in dflt.keywords}
@@ -249,28 +250,71 @@ class ObjectInliner:
                         changed = True
                     new_blk.append(st)
                 setattr(holder, fld, new_blk)
+        # record constructors taking one unpacked tuple: v = _X(*e) -> t0, .., tn = e; v = _X(t0, .., tn)
+        for holder in [n for n in ast.walk(fn) if hasattr(n, 'body') and isinstance(getattr(n, 'body'), list)]:
+            for fld in ('body', 'orelse', 'finalbody'):
+                blk = getattr(holder, fld, None)
+                if not isinstance(blk, list):
+                    continue
+                new_blk = []
+                for st in blk:
+                    c = st.value if isinstance(st, ast.Assign) and isinstance(st.value, ast.Call) else None
+                    if c is not None and isinstance(c.func, ast.Name) and c.func.id in self.classes \
+                            and (self.classes[c.func.id].is_namedtuple or self.classes[c.func.id].is_dataclass) \
+                            and len(c.args) == 1 and isinstance(c.args[0], ast.Starred) and not c.keywords \
+                            and not isinstance(c.args[0].value, (ast.Tuple, ast.List)):
+                        self.counter += 1
+                        names = [f'__u{self.counter}_{f}' for f, _ in self.classes[c.func.id].fields]
+                        unpack = ast.Assign(targets=[ast.Tuple(elts=[ast.Name(id=x, ctx=ast.Store()) for x in names], ctx=ast.Store())],
+                                            value=c.args[0].value)
+                        ast.copy_location(unpack, st)
+                        c.args = [ast.Name(id=x, ctx=ast.Load()) for x in names]
+                        new_blk.append(unpack)
+                        changed = True
+                    new_blk.append(st)
+                setattr(holder, fld, new_blk)
+        if changed:
+            ast.fix_missing_locations(fn)
         # (a) v = _X(args)
         cands: Dict[str, Tuple[ast.Assign, str]] = {}
+        more_stores: Dict[str, List[ast.Assign]] = {}
+        changed = self._version_rebound_records(fn) or changed
         stores: Dict[str, int] = {}
         for n in ast.walk(fn):
             if isinstance(n, ast.Name) and isinstance(n.ctx, (ast.Store, ast.Del)):
                 stores[n.id] = stores.get(n.id, 0) + 1
+        ctor_stores: Dict[str, List[ast.Assign]] = {}
         for n in ast.walk(fn):
             if isinstance(n, ast.Assign) and len(n.targets) == 1 and isinstance(n.targets[0], ast.Name) and isinstance(n.value, ast.Call) \
                     and isinstance(n.value.func, ast.Name) and n.value.func.id in self.classes:
-                v = n.targets[0].id
-                if stores.get(v) == 1 and not any(a.arg == v for a in fn.args.args + fn.args.kwonlyargs):
-                    cands[v] = (n, n.value.func.id)
+                ctor_stores.setdefault(n.targets[0].id, []).append(n)
+        for v, asgs in ctor_stores.items():
+            # every store to v builds an object of ONE class (one store, or one per arm of a branch): v is that object, its fields
+            # are ordinary variables with one definition per store
+            if stores.get(v) == len(asgs) and len({a.value.func.id for a in asgs}) == 1 \
+                    and not any(a.arg == v for a in fn.args.args + fn.args.kwonlyargs):
+                cands[v] = (asgs[0], asgs[0].value.func.id)
+                more_stores[v] = asgs[1:]
         for v, (asg, cname) in cands.items():
             cm = self.classes[cname]
             # every other use of v is v.attr or v.m(..)
             uses_ok, used_methods, parents = True, {'__init__'}, {}
+            tuple_uses, index_uses = [], []
             for p in ast.walk(fn):
                 for ch in ast.iter_child_nodes(p):
                     parents[id(ch)] = p
             for n in ast.walk(fn):
-                if isinstance(n, ast.Name) and n.id == v and n is not asg.targets[0]:
+                if isinstance(n, ast.Name) and n.id == v and n is not asg.targets[0] \
+                        and not any(n is a_.targets[0] for a_ in more_stores.get(v, [])):
                     p = parents.get(id(n))
+                    if cm.is_namedtuple and isinstance(p, ast.Assign) and p.value is n and isinstance(p.targets[0], (ast.Tuple, ast.List)) \
+                            and len(p.targets[0].elts) == len(cm.fields) and not any(isinstance(x, ast.Starred) for x in p.targets[0].elts):
+                        tuple_uses.append(p)
+                        continue
+                    if cm.is_namedtuple and isinstance(p, ast.Subscript) and p.value is n and isinstance(p.slice, ast.Constant) \
+                            and isinstance(p.slice.value, int) and -len(cm.fields) <= p.slice.value < len(cm.fields) and isinstance(p.ctx, ast.Load):
+                        index_uses.append(p)
+                        continue
                     if not (isinstance(p, ast.Attribute) and p.value is n):
                         uses_ok = False
                         break
@@ -292,15 +336,21 @@ class ObjectInliner:
             if any(isinstance(n, (ast.Lambda, ast.FunctionDef)) and n is not fn and any(isinstance(x, ast.Name) and x.id == v for x in ast.walk(n))
                    for n in ast.walk(fn)):
                 continue
-            done_here = self.expanded.setdefault(id(fn), set())
-            if any((cname, m) in done_here for m in used_methods if m != '__init__'):
-                continue          # the object comes out of an expansion of the same method: recursion, left as a call
+            # recursion guard: a constructor call that comes out of the expansion of method (C, m) carries that pair as ancestry; an
+            # object built there that uses (C, m) again is a recursion and is left as a call
+            anc = frozenset().union(*[getattr(a_.value, '_anc', frozenset()) for a_ in [asg] + more_stores.get(v, [])])
+            if any((cname, m) in anc for m in used_methods if m != '__init__'):
+                continue
             self.counter += 1
             k = str(self.counter)
             hs = self._helpers_for(cm, k, used_methods)
             if hs is None:
                 continue
-            done_here |= {(cname, h.split('_', 3)[-1] if False else h[len(f'__X{k}_'):]) for h in hs}
+            for hname, hf in hs.items():
+                tag = anc | {(cname, hname[len(f'__X{k}_'):])}
+                for c_ in ast.walk(hf):
+                    if isinstance(c_, ast.Call) and isinstance(c_.func, ast.Name) and c_.func.id in self.classes:
+                        c_._anc = tag
             self.helpers.update(hs)
             # rewrite the uses
             class RW(ast.NodeTransformer):
@@ -318,12 +368,19 @@ class ObjectInliner:
                     if isinstance(node.value, ast.Name) and node.value.id == v and node.attr not in cm.methods:
                         return ast.copy_location(ast.Name(id=f'{OBJ_PREFIX}{k}_{node.attr}', ctx=node.ctx), node)
                     return s.generic_visit(node)
-            ctor = asg.value
-            new_ctor = ast.Expr(value=ast.Call(func=ast.Name(id=f'__X{k}___init__', ctx=ast.Load()), args=ctor.args, keywords=ctor.keywords))
-            ast.copy_location(new_ctor, asg)
-            ast.copy_location(new_ctor.value, ctor)
+            for p in tuple_uses:
+                p.value = ast.copy_location(ast.Tuple(elts=[ast.Name(id=f'{OBJ_PREFIX}{k}_{fn_}', ctx=ast.Load()) for fn_, _ in cm.fields],
+                                                      ctx=ast.Load()), p.value)
+            for p in index_uses:
+                fld = cm.fields[p.slice.value][0]
+                self._replace_expr(fn, p, ast.copy_location(ast.Name(id=f'{OBJ_PREFIX}{k}_{fld}', ctx=ast.Load()), p))
             RW().visit(fn)
-            self._replace_stmt(fn, asg, new_ctor)
+            for a_ in [asg] + more_stores.get(v, []):
+                ctor = a_.value
+                new_ctor = ast.Expr(value=ast.Call(func=ast.Name(id=f'__X{k}___init__', ctx=ast.Load()), args=ctor.args, keywords=ctor.keywords))
+                ast.copy_location(new_ctor, a_)
+                ast.copy_location(new_ctor.value, ctor)
+                self._replace_stmt(fn, a_, new_ctor)
             ast.fix_missing_locations(fn)
             self.done += 1
             changed = True
@@ -391,6 +448,98 @@ class ObjectInliner:
         for e in exprs:
             walk(e)
         return out
+
+    @staticmethod
+    def _replace_expr(root, old, new):
+        for p in ast.walk(root):
+            for fld, val in ast.iter_fields(p):
+                if val is old:
+                    setattr(p, fld, new)
+                    return
+                if isinstance(val, list):
+                    for i, x in enumerate(val):
+                        if x is old:
+                            val[i] = new
+                            return
+
+    def _version_rebound_records(self, fn) -> bool:
+        """`v = _X(..); ...; v = <expr reading v>` in one block (the record is replaced by one derived from it: `v = v.with_(..)`):
+        the first binding and the reads up to the rebinding get a name of their own, so that each record is a single-assignment
+        local.  Only for straight-line code: no statement in between may store v in a nested block."""
+        changed = False
+        for holder in [n for n in ast.walk(fn) if isinstance(getattr(n, 'body', None), list)]:
+            for fld in ('body', 'orelse', 'finalbody'):
+                blk = getattr(holder, fld, None)
+                if not isinstance(blk, list):
+                    continue
+                i = 0
+                while i < len(blk):
+                    st = blk[i]
+                    i += 1
+                    if not (isinstance(st, ast.Assign) and len(st.targets) == 1 and isinstance(st.targets[0], ast.Name)
+                            and isinstance(st.value, ast.Call) and isinstance(st.value.func, ast.Name) and st.value.func.id in self.classes):
+                        continue
+                    v = st.targets[0].id
+                    j = None
+                    for k2 in range(i, len(blk)):
+                        s2 = blk[k2]
+                        stores_v = [x for x in ast.walk(s2) if isinstance(x, ast.Name) and x.id == v and isinstance(x.ctx, (ast.Store, ast.Del))]
+                        if not stores_v:
+                            continue
+                        if isinstance(s2, ast.Assign) and len(s2.targets) == 1 and isinstance(s2.targets[0], ast.Name) and len(stores_v) == 1 \
+                                and any(isinstance(x, ast.Name) and x.id == v and isinstance(x.ctx, ast.Load) for x in ast.walk(s2.value)):
+                            j = k2
+                        break
+                    if j is None:
+                        continue
+                    if any(isinstance(x, (ast.Lambda, ast.FunctionDef)) for s2 in blk[i - 1:j + 1] for x in ast.walk(s2)):
+                        continue
+                    self.counter += 1
+                    nv = f'{v}__s{self.counter}'
+                    st.targets[0].id = nv
+                    for s2 in blk[i:j]:
+                        for x in ast.walk(s2):
+                            if isinstance(x, ast.Name) and x.id == v:
+                                x.id = nv
+                    for x in ast.walk(blk[j].value):
+                        if isinstance(x, ast.Name) and x.id == v:
+                            x.id = nv
+                    changed = True
+        return changed
+
+    def finalize(self, fn) -> bool:
+        """after the last round: NamedTuple constructor calls that were not bound to a local, non-escaping object"""
+        return self._tuples_for_escaping_records(fn)
+
+    def _tuples_for_escaping_records(self, fn) -> bool:
+        """a NamedTuple instance that leaves the function (returned, passed on, yielded) is, for the analysis, the tuple of its
+        fields: `_Rec(a, b=c)` -> `(a, c)` in field order (defaults filled in)"""
+        changed = False
+        for c in [x for x in ast.walk(fn) if isinstance(x, ast.Call) and isinstance(x.func, ast.Name) and x.func.id in self.classes
+                  and self.classes[x.func.id].is_namedtuple]:
+            cm = self.classes[c.func.id]
+            names = [f for f, _ in cm.fields]
+            if any(isinstance(a, ast.Starred) for a in c.args) or any(k.arg is None for k in c.keywords) or len(c.args) > len(names):
+                continue
+            vals = dict(zip(names, c.args))
+            ok = True
+            for kw in c.keywords:
+                if kw.arg not in names or kw.arg in vals:
+                    ok = False
+                vals[kw.arg] = kw.value
+            for f, d in cm.fields:
+                if f not in vals:
+                    if d is None:
+                        ok = False
+                    else:
+                        vals[f] = copy.deepcopy(d)
+            if not ok:
+                continue
+            self._replace_expr(fn, c, ast.copy_location(ast.Tuple(elts=[vals[f] for f in names], ctx=ast.Load()), c))
+            changed = True
+        if changed:
+            ast.fix_missing_locations(fn)
+        return changed
 
     @staticmethod
     def _replace_stmt(root, old, new):
